@@ -1063,6 +1063,63 @@ fn release_all_action_keys(state: &mut State) -> (evs: Vec<Event>)
   to_release.iter().map(|k: &KeyCode| -> (e: Event) ensures e == Event::Released(*k) { Released(*k) }).collect()
 }
 
+
+// ---- event-level facts about the output phase of add_new_mapping (C03, C07) ----
+spec fn out_done(to: Seq<KeyCode>, n: int, evs: Seq<Event>, h: Set<KeyCode>) -> bool {
+  forall|j: int| 0 <= j < n && j < to.len() ==> h.contains(#[trigger] to[j]) && (!is_mod(to[j]) ==> evs.contains(Event::Pressed(to[j])))
+}
+spec fn c03_fire(m: Mapping, evs: Seq<Event>, h: Set<KeyCode>) -> bool {
+  &&& (forall|o: KeyCode| #[trigger] m.to@.contains(o) && !is_mod(o) ==> evs.contains(Event::Pressed(o)))
+  &&& (forall|o: KeyCode| #[trigger] m.to@.contains(o) && is_mod(o) ==> h.contains(o))
+  &&& (m.repeat is Normal ==> forall|o: KeyCode| #[trigger] m.to@.contains(o) ==> h.contains(o))
+  &&& (!(m.repeat is Normal) ==> forall|x: KeyCode| h.contains(x) ==> is_mod(x))
+}
+proof fn lemma_prefix_contains<T>(a: Seq<T>, b: Seq<T>)
+  requires a.len() <= b.len(), forall|j: int| 0 <= j < a.len() ==> b[j] == a[j]
+  ensures forall|e: T| a.contains(e) ==> b.contains(e)
+{
+  assert forall|e: T| a.contains(e) implies b.contains(e) by { let j = choose|j: int| 0 <= j < a.len() && a[j] == e; assert(b[j] == e); }
+}
+proof fn lemma_out_done_step(to: Seq<KeyCode>, n: int, e0: Seq<Event>, e1: Seq<Event>, h0: Set<KeyCode>, h1: Set<KeyCode>)
+  requires 0 <= n < to.len(), out_done(to, n, e0, h0), h0.subset_of(h1), forall|e: Event| e0.contains(e) ==> e1.contains(e),
+    h1.contains(to[n]), !is_mod(to[n]) ==> e1.contains(Event::Pressed(to[n]))
+  ensures out_done(to, n + 1, e1, h1)
+{
+  assert forall|j: int| 0 <= j < n + 1 && j < to.len() implies h1.contains(#[trigger] to[j]) && (!is_mod(to[j]) ==> e1.contains(Event::Pressed(to[j]))) by {
+    if j < n { assert(h0.contains(to[j])); }
+  }
+}
+proof fn lemma_out_done_all(m: Mapping, evs: Seq<Event>, h: Set<KeyCode>)
+  requires out_done(m.to@, m.to@.len() as int, evs, h)
+  ensures forall|o: KeyCode| #[trigger] m.to@.contains(o) ==> h.contains(o) && (!is_mod(o) ==> evs.contains(Event::Pressed(o)))
+{
+  assert forall|o: KeyCode| #[trigger] m.to@.contains(o) implies h.contains(o) && (!is_mod(o) ==> evs.contains(Event::Pressed(o))) by {
+    let j = choose|j: int| 0 <= j < m.to@.len() && m.to@[j] == o; assert(h.contains(m.to@[j]));
+  }
+}
+
+
+// after the output phase (Normal repeat: this is the final state)
+proof fn lemma_c03_fire_normal(m: Mapping, evs: Seq<Event>, h: Set<KeyCode>)
+  requires out_done(m.to@, m.to@.len() as int, evs, h)
+  ensures fire_pre(m, evs, h), m.repeat is Normal ==> c03_fire(m, evs, h)
+{
+  lemma_out_done_all(m, evs, h);
+}
+spec fn fire_pre(m: Mapping, evs: Seq<Event>, h: Set<KeyCode>) -> bool {
+  forall|o: KeyCode| #[trigger] m.to@.contains(o) ==> h.contains(o) && (!is_mod(o) ==> evs.contains(Event::Pressed(o)))
+}
+// Disabled / Special repeat: release_all_action_keys appended c and kept exactly the modifiers
+proof fn lemma_c03_fire_norepeat(m: Mapping, e0: Seq<Event>, c: Seq<Event>, h0: Set<KeyCode>, h1: Set<KeyCode>)
+  requires fire_pre(m, e0, h0), !(m.repeat is Normal),
+    forall|k: KeyCode| h1.contains(k) ==> is_mod(k), forall|k: KeyCode| h0.contains(k) && is_mod(k) ==> h1.contains(k),
+  ensures c03_fire(m, e0 + c, h1)
+{
+  assert forall|o: KeyCode| #[trigger] m.to@.contains(o) && !is_mod(o) implies (e0 + c).contains(Event::Pressed(o)) by {
+    let j = choose|j: int| 0 <= j < e0.len() && e0[j] == Event::Pressed(o); assert((e0 + c)[j] == Event::Pressed(o));
+  }
+}
+
 //@ C01 C02 C03 C05 C07 C08 C09 C14 C19 | default: fn add_new_mapping
 fn add_new_mapping(state: &mut State, new_key: &KeyCode, m: &Mapping) -> (res: StepResult)
   requires
@@ -1096,6 +1153,8 @@ fn add_new_mapping(state: &mut State, new_key: &KeyCode, m: &Mapping) -> (res: S
     //@ C02 C05 C08 | origin of the mappings in effect and of the absorbed keys: all but the last mapping in effect were in effect before; absorbed keys were absorbed before or are listed by the fired mapping
     am_sub(final(state).active_mappings@, final(state).active_mappings@.len() - 1, old(state).active_mappings@),
     forall|x: KeyCode| #[trigger] final(state).mapped_absorbed_keys@.contains(x) ==> old(state).mapped_absorbed_keys@.contains(x) || m.absorbing@.contains(x),
+    //@ C03 C07 | every non-modifier output key of the fired mapping is pressed by an event of this step; every modifier output key is held at the end; with Normal repeat the whole output is held at the end
+    c03_fire(*m, res.events@, held(*final(state))),
     //@ C09 | repeat request
     repeat_matches(m.repeat, res.repeat),
     //@ C01 C02 C09 | effect of the call on the list of keys considered pressed
@@ -1193,11 +1252,14 @@ fn add_new_mapping(state: &mut State, new_key: &KeyCode, m: &Mapping) -> (res: S
       (forall|x: KeyCode| #[trigger] state.pass_through_keys@.contains(x) ==> !m.from@.contains(x) && !m.to@.contains(x)),
       //@ C05 | a release lifts only the key itself or outputs owned by its mappings; pass-through keys are not outputs of mappings in effect
       (j2(*old(state)) ==> j2(*state)) && (j3(*old(state)) ==> j3(*state)) && (j4(*old(state)) ==> j4(*state)) && (j6(*old(state)) ==> j6(*state)) && sub(state.input_pressed_keys@, old(state).input_pressed_keys@) && (forall|x: KeyCode| #[trigger] old(state).input_pressed_keys@.contains(x) && (!old(state).mapped_absorbed_keys@.contains(x) || old(state).absorbing_trigger == Some(nk0)) ==> state.input_pressed_keys@.contains(x)) && anm_extra(*old(state), *state, m.absorbing@),
+      //@ C03 C07 | the output keys handled so far are held, the non-modifier ones were pressed by an event of this step
+      out_done(m.to@, it.index@ as int, events@, held(*state)),
       //@  | frame / auxiliary
       it.seq().len() == m.to@.len(),
       forall|j: int| 0 <= j < m.to@.len() ==> *it.seq()[j] == m.to@[j],
     { //@ | body
     proof { assert(*new_key == m.to@[it.index@ as int]); assert(m.to@.contains(*new_key)); }
+    let ghost hpre = held(*state);
     let ghost am0 = state.active_mappings@; let ghost ip_s = state.input_pressed_keys@; let ghost ab0 = state.mapped_absorbed_keys@;
     let ghost e0 = events@; let ghost pt0 = state.pass_through_keys@; let ghost mo0 = state.mapped_output_keys@;
     proof { lemma_ts(pt0, *new_key); lemma_ts(mo0, *new_key); }
@@ -1260,6 +1322,13 @@ fn add_new_mapping(state: &mut State, new_key: &KeyCode, m: &Mapping) -> (res: S
           assert(held(*state) =~= (pt0.to_set().union(mo0.to_set())).insert(*new_key)); assert(apply(h0, events@) == Some(held(*state))); }
       }
     }
+    proof {
+      assert(hpre =~= pt0.to_set().union(mo0.to_set()));
+      assert(held(*state).contains(*new_key));
+      lemma_prefix_contains(e0, events@);
+      if !is_mod(*new_key) { assert(events@.last() == Event::Pressed(*new_key)); assert(events@.contains(events@[events@.len() - 1])); }
+      lemma_out_done_step(m.to@, it.index@ as int, e0, events@, hpre, held(*state));
+    }
   }
   
   for absorbed_key in it: &m.absorbing
@@ -1275,6 +1344,8 @@ fn add_new_mapping(state: &mut State, new_key: &KeyCode, m: &Mapping) -> (res: S
       //@ C05 | a release lifts only the key itself or outputs owned by its mappings; pass-through keys are not outputs of mappings in effect
       (j2(*old(state)) ==> j2(*state)) && (j3(*old(state)) ==> j3(*state)) && (j4(*old(state)) ==> j4(*state)) && (j6(*old(state)) ==> j6(*state)) && sub(state.input_pressed_keys@, old(state).input_pressed_keys@) && (forall|x: KeyCode| #[trigger] old(state).input_pressed_keys@.contains(x) && (!old(state).mapped_absorbed_keys@.contains(x) || old(state).absorbing_trigger == Some(nk0)) ==> state.input_pressed_keys@.contains(x)) && anm_extra(*old(state), *state, m.absorbing@),
       it.seq().len() == m.absorbing@.len(), forall|j: int| 0 <= j < m.absorbing@.len() ==> *it.seq()[j] == m.absorbing@[j],
+      //@ C03 C07 | all output keys are held, the non-modifier ones were pressed by an event of this step
+      out_done(m.to@, m.to@.len() as int, events@, held(*state)),
     { //@ | body
     proof { assert(*absorbed_key == m.absorbing@[it.index@ as int]); assert(m.absorbing@.contains(*absorbed_key)); }
     let ghost ab_b = state.mapped_absorbed_keys@;
@@ -1304,6 +1375,7 @@ fn add_new_mapping(state: &mut State, new_key: &KeyCode, m: &Mapping) -> (res: S
     events,
     repeat: ResultingRepeat::Disabled
   };
+  proof { lemma_c03_fire_normal(*m, res.events@, held(*state)); }
   
   match &m.repeat {
     Repeat::Normal => {
@@ -1313,13 +1385,15 @@ fn add_new_mapping(state: &mut State, new_key: &KeyCode, m: &Mapping) -> (res: S
       // Release all action keys to prevent repeating
       let ghost e0 = res.events@; let ghost hm0 = held(*state);
       res.events.append(&mut release_all_action_keys(state));
-      proof { let c = choose|c: Seq<Event>| res.events@ == e0 + c && apply(hm0, c) == Some(held(*state)); lemma_apply_append(h0, e0, c); }
+      proof { let c = choose|c: Seq<Event>| res.events@ == e0 + c && apply(hm0, c) == Some(held(*state)); lemma_apply_append(h0, e0, c);
+        lemma_c03_fire_norepeat(*m, e0, c, hm0, held(*state)); }
     },
     Repeat::Special { keys, delay_ms, interval_ms } => {
       // First release action keys
       let ghost e0 = res.events@; let ghost hm0 = held(*state);
       res.events.append(&mut release_all_action_keys(state));
-      proof { let c = choose|c: Seq<Event>| res.events@ == e0 + c && apply(hm0, c) == Some(held(*state)); lemma_apply_append(h0, e0, c); }
+      proof { let c = choose|c: Seq<Event>| res.events@ == e0 + c && apply(hm0, c) == Some(held(*state)); lemma_apply_append(h0, e0, c);
+        lemma_c03_fire_norepeat(*m, e0, c, hm0, held(*state)); }
 
       // Now tell it what key to repeat
       res.repeat = ResultingRepeat::Repeating {
@@ -1435,6 +1509,104 @@ fn final_key(trigger: &Vec<KeyCode>) -> (r: KeyCode)
     r == trigger@[trigger@.len() - 1],
   { //@ | body
   return trigger[trigger.len() - 1];
+}
+
+// ---- C03 / C08 in the vocabulary of the layout: "the last-listed mapping whose final trigger key is k and whose other trigger keys are all held (and not absorbed)" ----
+pub open spec fn supported_set(from: Seq<KeyCode>, pressed: Seq<KeyCode>, absorbed: Set<KeyCode>, k: KeyCode) -> bool {
+  forall|j: int| 0 <= j < from.len() ==> ((pressed.contains(#[trigger] from[j]) && !absorbed.contains(from[j])) || from[j] == k)
+}
+pub open spec fn layout_fired(ms: Seq<Mapping>, pressed: Seq<KeyCode>, absorbed: Set<KeyCode>, k: KeyCode) -> Option<MappingV>
+  decreases ms.len()
+{
+  if ms.len() == 0 { None } else {
+    let m = ms.last();
+    if m.from@.len() >= 1 && m.from@.last() == k && supported_set(m.from@, pressed, absorbed, k) { Some(mview(m)) }
+    else { layout_fired(ms.drop_last(), pressed, absorbed, k) }
+  }
+}
+pub open spec fn fired_in_views(gv: Seq<MappingV>, pressed: Seq<KeyCode>, absorbed: Set<KeyCode>, k: KeyCode) -> Option<MappingV>
+  decreases gv.len()
+{
+  if gv.len() == 0 { None } else if supported_set(gv.last().from, pressed, absorbed, k) { Some(gv.last()) } else { fired_in_views(gv.drop_last(), pressed, absorbed, k) }
+}
+pub proof fn lemma_layout_fired_group(ms: Seq<Mapping>, pressed: Seq<KeyCode>, absorbed: Set<KeyCode>, k: KeyCode)
+  ensures layout_fired(ms, pressed, absorbed, k) == fired_in_views(group_of(ms, k), pressed, absorbed, k)
+  decreases ms.len()
+{
+  if ms.len() > 0 {
+    lemma_layout_fired_group(ms.drop_last(), pressed, absorbed, k);
+    let g = group_of(ms.drop_last(), k); let m = ms.last();
+    if m.from@.len() >= 1 && m.from@.last() == k { assert(group_of(ms, k).drop_last() =~= g); assert(group_of(ms, k).last() == mview(m)); }
+  }
+}
+// what a firing step must have done with the outputs of the fired mapping (views)
+pub open spec fn fire_post(mv: MappingV, evs: Seq<Event>, h: Set<KeyCode>) -> bool {
+  &&& (forall|o: KeyCode| #[trigger] mv.to.contains(o) && !is_mod(o) ==> evs.contains(Event::Pressed(o)))
+  &&& (forall|o: KeyCode| #[trigger] mv.to.contains(o) && is_mod(o) ==> h.contains(o))
+  &&& (mv.repeat is Normal ==> forall|o: KeyCode| #[trigger] mv.to.contains(o) ==> h.contains(o))
+  &&& (!(mv.repeat is Normal) ==> forall|x: KeyCode| h.contains(x) ==> is_mod(x))
+}
+spec fn eff_abs(st: State, k: KeyCode) -> Set<KeyCode> { if st.absorbing_trigger == Some(k) { Set::empty() } else { st.mapped_absorbed_keys@.to_set().remove(k) } }
+proof fn lemma_sup_set(m: Mapping, st: State, k: KeyCode)
+  ensures sup(m, st, k) == supported_set(m.from@, st.input_pressed_keys@, eff_abs(st, k), k)
+{
+  assert forall|x: KeyCode| abs_now(st, k, x) == eff_abs(st, k).contains(x) by { lemma_ts(st.mapped_absorbed_keys@, x); }
+  if sup(m, st, k) { assert forall|j: int| 0 <= j < m.from@.len() implies ((st.input_pressed_keys@.contains(#[trigger] m.from@[j]) && !eff_abs(st, k).contains(m.from@[j])) || m.from@[j] == k) by {} }
+  if supported_set(m.from@, st.input_pressed_keys@, eff_abs(st, k), k) { assert forall|j: int| 0 <= j < m.from@.len() implies ((st.input_pressed_keys@.contains(#[trigger] m.from@[j]) && !abs_now(st, k, m.from@[j])) || m.from@[j] == k) by {} }
+}
+// either no mapping of the group is supported or exactly the last supported one is "fired"
+proof fn lemma_scan(g: Seq<Mapping>, st: State, k: KeyCode, lo: int)
+  requires 0 <= lo <= g.len(), forall|j: int| lo <= j < g.len() ==> !sup(#[trigger] g[j], st, k)
+  ensures none_fired(g, st, k) || exists|i: int| is_fired(g, st, k, i)
+  decreases lo
+{
+  if lo > 0 {
+    if sup(g[lo - 1], st, k) { assert(is_fired(g, st, k, lo - 1)); }
+    else { lemma_scan(g, st, k, lo - 1); }
+  }
+}
+proof fn lemma_fired_unique(g: Seq<Mapping>, st: State, k: KeyCode, a: int, b: int)
+  requires is_fired(g, st, k, a), is_fired(g, st, k, b)
+  ensures a == b
+{}
+// the group scan, as a function of the views
+proof fn lemma_fired_views(g: Seq<Mapping>, st: State, k: KeyCode, n: int)
+  requires 0 <= n <= g.len()
+  ensures fired_in_views(views(g.take(n)), st.input_pressed_keys@, eff_abs(st, k), k) ==
+    (if exists|i: int| 0 <= i < n && sup(#[trigger] g[i], st, k) && (forall|j: int| i < j < n ==> !sup(#[trigger] g[j], st, k)) {
+       Some(mview(g[choose|i: int| 0 <= i < n && sup(#[trigger] g[i], st, k) && (forall|j: int| i < j < n ==> !sup(#[trigger] g[j], st, k))])) } else { None })
+  decreases n
+{
+  let gv = views(g.take(n));
+  if n > 0 {
+    lemma_fired_views(g, st, k, n - 1);
+    assert(gv.drop_last() =~= views(g.take(n - 1)));
+    assert(gv.last() == mview(g[n - 1]));
+    lemma_sup_set(g[n - 1], st, k);
+    if sup(g[n - 1], st, k) {
+      let w = n - 1;
+      assert(0 <= w < n && sup(g[w], st, k) && (forall|j: int| w < j < n ==> !sup(#[trigger] g[j], st, k)));
+      let c = choose|i: int| 0 <= i < n && sup(#[trigger] g[i], st, k) && (forall|j: int| i < j < n ==> !sup(#[trigger] g[j], st, k));
+      assert(c == w) by { if c < w { assert(!sup(g[w], st, k)); } }
+    } else {
+      // the witnesses below n and below n-1 coincide
+      if exists|i: int| 0 <= i < n - 1 && sup(#[trigger] g[i], st, k) && (forall|j: int| i < j < n - 1 ==> !sup(#[trigger] g[j], st, k)) {
+        let c1 = choose|i: int| 0 <= i < n - 1 && sup(#[trigger] g[i], st, k) && (forall|j: int| i < j < n - 1 ==> !sup(#[trigger] g[j], st, k));
+        assert(0 <= c1 < n && sup(g[c1], st, k) && (forall|j: int| c1 < j < n ==> !sup(#[trigger] g[j], st, k)));
+        let c = choose|i: int| 0 <= i < n && sup(#[trigger] g[i], st, k) && (forall|j: int| i < j < n ==> !sup(#[trigger] g[j], st, k));
+        assert(c == c1) by { if c < c1 { assert(!sup(g[c1], st, k)); } if c1 < c { assert(c < n - 1); assert(!sup(g[c], st, k)); } }
+      } else {
+        if exists|i: int| 0 <= i < n && sup(#[trigger] g[i], st, k) && (forall|j: int| i < j < n ==> !sup(#[trigger] g[j], st, k)) {
+          let c = choose|i: int| 0 <= i < n && sup(#[trigger] g[i], st, k) && (forall|j: int| i < j < n ==> !sup(#[trigger] g[j], st, k));
+          assert(c < n - 1);
+          assert(0 <= c < n - 1 && sup(g[c], st, k) && (forall|j: int| c < j < n - 1 ==> !sup(#[trigger] g[j], st, k)));
+          assert(false);
+        }
+      }
+    }
+  } else {
+    assert(gv =~= Seq::<MappingV>::empty());
+  }
 }
 
 pub open spec fn supported_spec(trigger: Seq<KeyCode>, pressed: Seq<KeyCode>, absorbed: Seq<KeyCode>, nk: KeyCode) -> bool {
@@ -1981,6 +2153,19 @@ proof fn lemma_np_origin_hit(st: State, o: State, ab1: Seq<KeyCode>, g: Seq<Mapp
 }
 
 
+
+spec fn mentioned(am: Seq<Mapping>, k: KeyCode) -> bool { exists|j: int| 0 <= j < am.len() && ((#[trigger] am[j]).to@.contains(k) || am[j].from@.contains(k)) }
+proof fn lemma_mentioned_at(am: Seq<Mapping>, j: int, k: KeyCode)
+  requires 0 <= j < am.len(), am[j].to@.contains(k) || am[j].from@.contains(k)
+  ensures mentioned(am, k)
+{}
+proof fn lemma_no_mention_not_mentioned(am: Seq<Mapping>, k: KeyCode)
+  requires no_mention(am, k)
+  ensures !mentioned(am, k)
+{
+  if mentioned(am, k) { let j = choose|j: int| 0 <= j < am.len() && ((#[trigger] am[j]).to@.contains(k) || am[j].from@.contains(k)); assert(false); }
+}
+
 //@ C01 C02 C03 C05 C08 C09 C14 C19 | default: fn newly_press
 fn newly_press(mapper: &mut Mapper, k: KeyCode) -> (res: StepResult)
   requires
@@ -2026,15 +2211,20 @@ fn newly_press(mapper: &mut Mapper, k: KeyCode) -> (res: StepResult)
     //@ C03 C08 C09 | firing specification: the last-listed supported mapping of the group fires, with its repeat request
     forall|i: int| is_fired(group(old(mapper).layout, k), old(mapper).state, k, i) ==>
         final(mapper).state.active_mappings@.len() >= 1 && mview(final(mapper).state.active_mappings@.last()) == mview(#[trigger] group(old(mapper).layout, k)[i])
-        && repeat_matches(group(old(mapper).layout, k)[i].repeat, res.repeat),
+        && repeat_matches(group(old(mapper).layout, k)[i].repeat, res.repeat)
+        && c03_fire(group(old(mapper).layout, k)[i], res.events@, held(final(mapper).state)),
     none_fired(group(old(mapper).layout, k), old(mapper).state, k) ==> res.repeat is Disabled,
+    //@ C03 C05 | no mapping qualifies: nothing is emitted if a mapping in effect mentions the key, otherwise the key itself is passed through as the last event of the step
+    none_fired(group(old(mapper).layout, k), old(mapper).state, k) ==>
+      (if mentioned(old(mapper).state.active_mappings@, k) { res.events@.len() == 0 }
+       else { res.events@.len() >= 1 && res.events@.last() == Event::Pressed(k) && held(final(mapper).state).contains(k) }),
     //@ C11 C09 | repeat parameters are non-negative (the event loop turns them into Durations)
     rrepeat_ok(res.repeat),
     //@ C02 C05 C08 | origin: every mapping in effect afterwards was in effect before or is a mapping of the pressed key's group; every absorbed key was absorbed before or is listed by a mapping of that group
     np_origin(final(mapper).state, old(mapper).state, group(old(mapper).layout, k)),
     j3b(old(mapper).layout, old(mapper).state) && j5(old(mapper).layout, old(mapper).state) ==> j3b(final(mapper).layout, final(mapper).state) && j5(final(mapper).layout, final(mapper).state),
   { //@ | body
-  hide(j4); hide(j6); hide(nonempty_from); hide(from_in); hide(am_sub); hide(sup); hide(np_origin);
+  hide(j4); hide(j6); hide(nonempty_from); hide(from_in); hide(am_sub); hide(sup); hide(np_origin); hide(c03_fire); hide(mentioned);
   let mappings = &mapper.layout.mappings;
   let mut state = &mut mapper.state;
   
@@ -2114,7 +2304,7 @@ fn newly_press(mapper: &mut Mapper, k: KeyCode) -> (res: StepResult)
         //@ C03 C08 | firing specification (support test, grouping of the layout by final trigger key)
         !any_hit ==> forall|j: int| mappings@.len() - it.index@ <= j < mappings@.len() ==> !sup(#[trigger] mappings@[j], st0, k),
         //@ C03 C08 C09 | firing specification: the last-listed supported mapping of the group fires, with its repeat request
-        any_hit ==> exists|i: int| is_fired(g, st0, k, i) && state.active_mappings@.len() >= 1 && mview(state.active_mappings@.last()) == mview(g[i]) && repeat_matches(g[i].repeat, res.repeat),
+        any_hit ==> exists|i: int| is_fired(g, st0, k, i) && state.active_mappings@.len() >= 1 && mview(state.active_mappings@.last()) == mview(g[i]) && repeat_matches(g[i].repeat, res.repeat) && c03_fire(g[i], res.events@, held(*state)),
         //@  | frame / auxiliary
         it.seq().len() == mappings@.len(),
         forall|j: int| 0 <= j < mappings@.len() ==> *it.seq()[j] == mappings@[mappings@.len() - 1 - j],
@@ -2161,7 +2351,7 @@ fn newly_press(mapper: &mut Mapper, k: KeyCode) -> (res: StepResult)
       if is_supported(&mapping.from, &state.input_pressed_keys, &absorbed_keys, &k) {
         let ghost hm0 = held(*state); let ghost e0 = res.events@;
         res.append(add_new_mapping(&mut state, &k, &mapping));
-        proof { let c = choose|c: Seq<Event>| res.events@ == e0 + c && apply(hm0, c) == Some(held(*state)); assert(e0.len() == 0); assert(e0 =~= Seq::<Event>::empty()); assert(e0 + c =~= c);
+        proof { let c = choose|c: Seq<Event>| res.events@ == e0 + c && apply(hm0, c) == Some(held(*state)) && c03_fire(*mapping, c, held(*state)); assert(e0.len() == 0); assert(e0 =~= Seq::<Event>::empty()); assert(e0 + c =~= c);
           assert forall|f: KeyCode| #[trigger] state.active_mappings@.last().from@.contains(f) implies f == k || state.input_pressed_keys@.contains(f) by {
             let j = choose|j: int| 0 <= j < mapping.from@.len() && mapping.from@[j] == f;
             assert((old(mapper).state.input_pressed_keys@.contains(mapping.from@[j]) && !absorbed_keys@.contains(mapping.from@[j])) || mapping.from@[j] == k);
@@ -2182,12 +2372,16 @@ fn newly_press(mapper: &mut Mapper, k: KeyCode) -> (res: StepResult)
   
   if !any_hit {
     for m in it: &state.active_mappings
+      invariant_except_break
+        !any_hit,
       invariant
         //@ C09 | repeat request
         !any_hit ==> (state.pass_through_keys@ == old(mapper).state.pass_through_keys@ && state.mapped_output_keys@ == old(mapper).state.mapped_output_keys@ && state.active_mappings@ == old(mapper).state.active_mappings@ && state.input_pressed_keys@ == old(mapper).state.input_pressed_keys@ && state.mapped_absorbed_keys@ == ab1 && state.absorbing_trigger == at1 && res.events@.len() == 0 && res.repeat is Disabled),
         //@ C01 C02 | inclusion invariant J (every held output key is justified by what is pressed)
         !any_hit ==> no_mention_upto(state.active_mappings@, it.index@ as int, k),
         np_origin(*state, st0, g),
+        //@ C03 C05 | nothing has been emitted and no mapping was touched while looking for a mapping in effect that mentions the key
+        res.events@.len() == 0, state.active_mappings@ == st0.active_mappings@,
         //@ C19 | bookkeeping equals the fold of the emitted events; no redundant press or release
         wf(*state),
         apply(h0, res.events@) == Some(held(*state)),
@@ -2209,18 +2403,27 @@ fn newly_press(mapper: &mut Mapper, k: KeyCode) -> (res: StepResult)
       ensures
         //@ C01 C02 | inclusion invariant J (every held output key is justified by what is pressed)
         !any_hit ==> no_mention(state.active_mappings@, k),
+        any_hit ==> mentioned(state.active_mappings@, k),
       { //@ | body
-      proof { reveal(no_mention_upto); }
+      proof { reveal(no_mention_upto); assert(*m == state.active_mappings@[it.index@ as int]); }
       if m.from.contains(&k) {
+        proof { lemma_mentioned_at(state.active_mappings@, it.index@ as int, k); }
         any_hit = true;
         break;
       }
       else if m.to.contains(&k) {
+        proof { lemma_mentioned_at(state.active_mappings@, it.index@ as int, k); }
         any_hit = true;
         break;
       }
     }
     proof { reveal(no_mention_upto); }
+  }
+  proof {
+    if !hit1 {
+      if any_hit { assert(mentioned(st0.active_mappings@, k)); assert(res.events@.len() == 0); }
+      else { lemma_no_mention_not_mentioned(st0.active_mappings@, k); }
+    }
   }
   
   if !any_hit {
@@ -2301,6 +2504,68 @@ impl Mapper {
   pub closed spec fn grouped_from(&self, l: Layout) -> bool { grouped_prefix(self.layout.mappings@, l.mappings@) }
   /// views of the mappings in effect, oldest first
   pub closed spec fn active_view(&self) -> Seq<MappingV> { views(self.state.active_mappings@) }
+
+  /// the view of the mapping that the scan of the pressed key's group selects in this state (None: no mapping of the group is supported)
+  pub closed spec fn gfired(&self, k: KeyCode) -> Option<MappingV> {
+    let g = group(self.layout, k);
+    if exists|i: int| is_fired(g, self.state, k, i) { Some(mview(g[choose|i: int| is_fired(g, self.state, k, i)])) } else { None }
+  }
+  /// some mapping in effect has k in its trigger or in its output
+  pub closed spec fn mentions(&self, k: KeyCode) -> bool { mentioned(self.state.active_mappings@, k) }
+  /// the absorbed keys that do not count as held when k is pressed (none when k is the key whose repeated press keeps them)
+  pub closed spec fn eff_absorbed(&self, k: KeyCode) -> Set<KeyCode> { eff_abs(self.state, k) }
+  pub closed spec fn absorbed_view(&self) -> Seq<KeyCode> { self.state.mapped_absorbed_keys@ }
+  pub closed spec fn absorbing_trigger_view(&self) -> Option<KeyCode> { self.state.absorbing_trigger }
+
+  /// C03 / C08: the group scan selects exactly the last-listed mapping of the layout whose final trigger key is k and whose trigger keys are all pressed and not absorbed
+  pub proof fn lemma_gfired(&self, l: Layout, k: KeyCode)
+    requires self.inv(), self.grouped_from(l)
+    ensures self.gfired(k) == layout_fired(l.mappings@, self.pressed_view(), self.eff_absorbed(k), k)
+  {
+    let g = group(self.layout, k); let st = self.state;
+    lemma_layout_fired_group(l.mappings@, st.input_pressed_keys@, eff_abs(st, k), k);
+    lemma_fired_views(g, st, k, g.len() as int);
+    assert(g.take(g.len() as int) =~= g);
+    // views(g) == group_of(l, k)
+    if self.layout.mappings@.contains_key(k) { assert(views(g) == group_of(l.mappings@, k)); }
+    else { assert(group_of(l.mappings@, k).len() == 0); assert(views(g) =~= group_of(l.mappings@, k)); }
+    let n = g.len() as int;
+    if exists|i: int| is_fired(g, st, k, i) {
+      let a = choose|i: int| is_fired(g, st, k, i);
+      assert(0 <= a < n && sup(g[a], st, k) && (forall|j: int| a < j < n ==> !sup(#[trigger] g[j], st, k)));
+      let b = choose|i: int| 0 <= i < n && sup(#[trigger] g[i], st, k) && (forall|j: int| i < j < n ==> !sup(#[trigger] g[j], st, k));
+      assert(is_fired(g, st, k, b));
+      lemma_fired_unique(g, st, k, a, b);
+    } else {
+      if exists|i: int| 0 <= i < n && sup(#[trigger] g[i], st, k) && (forall|j: int| i < j < n ==> !sup(#[trigger] g[j], st, k)) {
+        let b = choose|i: int| 0 <= i < n && sup(#[trigger] g[i], st, k) && (forall|j: int| i < j < n ==> !sup(#[trigger] g[j], st, k));
+        assert(is_fired(g, st, k, b));
+        assert(false);
+      }
+    }
+  }
+
+  /// in a layout without absorbing lists no key is ever absorbed
+  pub proof fn lemma_no_absorbing(&self, l: Layout, k: KeyCode)
+    requires self.inv(), self.grouped_from(l), forall|i: int| 0 <= i < l.mappings@.len() ==> (#[trigger] l.mappings@[i]).absorbing@.len() == 0
+    ensures self.eff_absorbed(k) == Set::<KeyCode>::empty(), self.absorbed_view().len() == 0
+  {
+    let st = self.state; let h = self.layout;
+    if st.mapped_absorbed_keys@.len() > 0 {
+      let x = st.mapped_absorbed_keys@[0];
+      assert(st.mapped_absorbed_keys@.contains(x));
+      assert(abs_in_hl(h, x));
+      let (kk, i2) = choose|kk: KeyCode, i2: int| h.mappings@.contains_key(kk) && 0 <= i2 < h.mappings@[kk]@.len() && (#[trigger] h.mappings@[kk]@[i2]).absorbing@.contains(x);
+      assert(views(h.mappings@[kk]@) == group_of(l.mappings@, kk));
+      assert(views(h.mappings@[kk]@)[i2] == mview(h.mappings@[kk]@[i2]));
+      lemma_group_of_member(l.mappings@, kk, i2);
+      let i = choose|i: int| 0 <= i < l.mappings@.len() && mview(#[trigger] l.mappings@[i]) == group_of(l.mappings@, kk)[i2] && l.mappings@[i].from@.len() >= 1 && l.mappings@[i].from@.last() == kk;
+      assert(l.mappings@[i].absorbing@ == h.mappings@[kk]@[i2].absorbing@);
+      assert(false);
+    }
+    assert(st.mapped_absorbed_keys@ =~= Seq::<KeyCode>::empty());
+    assert(eff_abs(st, k) =~= Set::<KeyCode>::empty());
+  }
 
   /// C02(a) at a single state: a key held on the virtual keyboard is considered pressed, or is an output key of a mapping of the layout whose trigger keys are all considered pressed
   pub proof fn lemma_justified(&self, l: Layout, x: KeyCode)
@@ -2386,6 +2651,11 @@ impl Mapper {
       final(self).pressed_view().len() == 0 ==> final(self).held_view() == Set::<KeyCode>::empty(),
       //@ C02 C03 C05 | the grouped copy of the layout is never modified
       forall|l: Layout| #[trigger] old(self).grouped_from(l) ==> final(self).grouped_from(l),
+      //@ C03 C07 C08 | a newly pressed key: the mapping selected by the group scan takes effect (it is the newest mapping in effect), its non-modifier output keys are pressed by events of this step, its modifier outputs are held, with Normal repeat the whole output is held, otherwise only modifiers stay held; if no mapping qualifies the key is passed through as the last event, unless a mapping in effect mentions it (then nothing is emitted)
+      match input { Event::Pressed(k) => !old(self).pressed_view().contains(k) ==> (match old(self).gfired(k) {
+          Some(mv) => final(self).active_view().len() >= 1 && final(self).active_view().last() == mv && fire_post(mv, res.events@, final(self).held_view()),
+          None => if old(self).mentions(k) { res.events@.len() == 0 } else { res.events@.len() >= 1 && res.events@.last() == Event::Pressed(k) && final(self).held_view().contains(k) } }),
+        _ => true },
     { //@ | body
     broadcast use Mapper::lemma_rest;
     let state = &mut self.state;
@@ -2393,6 +2663,7 @@ impl Mapper {
     match input {
       Pressed(k) => {
         if !state.input_pressed_keys.contains(&k) {
+          proof { let g = group(self.layout, k); lemma_scan(g, self.state, k, g.len() as int); reveal(c03_fire); }
           newly_press(self, k)
         }
         else {
